@@ -561,6 +561,8 @@ pub struct HandlerProgram {
     pub fail: bool,
     /// `ResponseBuilder::force_close()`
     pub force_close: bool,
+    /// `ResponseBuilder::keep_alive()`: the handler asks for a persistent connection
+    pub force_keep_alive: bool,
     /// `ResponseBuilder::no_chunking(len)`: Content-Length set by the handler, body written raw
     pub no_chunking: Option<u64>,
     /// the handler additionally waits until this virtual time before doing anything
@@ -577,6 +579,7 @@ impl HandlerProgram {
             body,
             fail: false,
             force_close: false,
+            force_keep_alive: false,
             no_chunking: None,
             pend_until_ms: None,
         }
@@ -591,6 +594,10 @@ impl HandlerProgram {
     }
     pub fn close(mut self) -> Self {
         self.force_close = true;
+        self
+    }
+    pub fn keep_alive(mut self) -> Self {
+        self.force_keep_alive = true;
         self
     }
     pub fn failing(mut self) -> Self {
